@@ -403,7 +403,8 @@ fn generate(rng: &mut Rng, tier: Tier, cases: &mut Vec<Case>) {
     }
     // --- three levels of tree nodes (27000 = 30 * 900 elements fill one second-level node)
     // (quick: two cases just above the boundary, so that a wrong child index on the second tree level shows)
-    let big: &[usize] = if thorough { &[26999, 27000, 27001, 27030, 27931, 54001] } else { &[27001] };
+    // 26101..=27000 elements make 30 leaf groups: the root's level is exactly one full node (C12-r4m3)
+    let big: &[usize] = if thorough { &[26100, 26101, 26500, 26999, 27000, 27001, 27030, 27931, 54000, 54001] } else { &[26101, 27000, 27001] };
     let big_q: &[QKind] = if thorough { &[QKind::Diagonal, QKind::Far, QKind::Inside, QKind::BesideLon] } else { &[QKind::Diagonal, QKind::Far] };
     {
         for &n in big {
@@ -498,6 +499,13 @@ fn observe<T: RTreeElement + Clone>(elems: Vec<T>, id: impl Fn(&T) -> u32, q: FP
     obs.push(tagged("P nprio", nodes.iter().map(|n| bits(box_of(&n.1).min_distance(&q)).to_string())));
     obs.push(tagged("P lprio", leaves.iter().map(|b| bits(box_of(b).min_distance(&q)).to_string())));
 
+    // history: for every second case an iteration for ANOTHER query is started on the same tree and abandoned
+    // after three items before the observed iteration starts (seeded change C12-r4m2: a queue handed back to the
+    // tree by an unfinished iterator); what the observed iteration yields does not depend on it
+    if elems.len() % 2 == 1 {
+        let other = *elems[elems.len() / 2].center();
+        let _ = tree.nearest_iter(&other).take(3).count();
+    }
     let limit = 2 * elems.len() + 16;
     let mut seq: Vec<(u32, u64)> = Vec::new();
     let mut truncated = false;
@@ -529,6 +537,45 @@ fn observe<T: RTreeElement + Clone>(elems: Vec<T>, id: impl Fn(&T) -> u32, q: FP
         i = j;
     }
     obs.push(tagged("F seq", canon.iter().map(|(i, d)| format!("{i}:{d}"))));
+    // the iterator through the standard adaptors: `nth(k)`, `skip(k)`, `step_by(s)` and `take(k).last()` must hand
+    // out item k of the very sequence that `next()` yields (the iteration is deterministic for a tree and a
+    // query), so "the first k items are the k nearest" also holds through them (seeded change C12-r4m1: an
+    // `Iterator::nth` override that drops whole leaf groups without unpacking them)
+    if !truncated {
+        let n = seq.len();
+        let mut ks: Vec<usize> = vec![0, 1, 2, 29, 30, 31, n / 3, n / 2, 899, 900, 901, 1800, n.saturating_sub(1), n, n + 1];
+        ks.retain(|k| *k <= n + 1);
+        ks.sort();
+        ks.dedup();
+        let mut bad: Option<String> = None;
+        let item = |x: Option<(T, f64)>| x.map(|(e, d)| (id(&e), bits(d)));
+        for &k in &ks {
+            let want = seq.get(k).copied();
+            let got_nth = item(tree.nearest_iter(&q).nth(k));
+            let got_skip = item(tree.nearest_iter(&q).skip(k).next());
+            let got_last = if k >= 1 && k <= n { item(tree.nearest_iter(&q).take(k).last()) } else { None };
+            let want_last = if k >= 1 && k <= n { seq.get(k - 1).copied() } else { None };
+            if got_nth != want {
+                bad = Some(format!("nth({k})={got_nth:?},next-sequence[{k}]={want:?}"));
+            } else if got_skip != want {
+                bad = Some(format!("skip({k}).next()={got_skip:?},next-sequence[{k}]={want:?}"));
+            } else if got_last != want_last {
+                bad = Some(format!("take({k}).last()={got_last:?},next-sequence[{}]={want_last:?}", k.wrapping_sub(1)));
+            }
+            if bad.is_some() {
+                break;
+            }
+        }
+        if bad.is_none() && n >= 2 {
+            let step = 1 + n / 40;
+            let got: Vec<(u32, u64)> = tree.nearest_iter(&q).step_by(step).map(|(e, d)| (id(&e), bits(d))).collect();
+            let want: Vec<(u32, u64)> = seq.iter().copied().step_by(step).collect();
+            if got != want {
+                bad = Some(format!("step_by({step})-differs-from-the-stepped-next-sequence"));
+            }
+        }
+        obs.push(format!("D adapt={}", bad.map(|b| b.replace(' ', "")).unwrap_or_else(|| "ok".to_string())));
+    }
 }
 
 fn main() {
